@@ -74,7 +74,8 @@ from desper.model.world import object_from_string
 MOD = 'c15h_mod'
 PKG = 'c15h_pkg'
 SUB = PKG + '.sub'
-_MODULE_NAMES = (MOD, PKG, SUB)
+LATE = 'c15h_late'          # installed late by the 'fail_module_*' steps
+_MODULE_NAMES = (MOD, PKG, SUB, LATE)
 
 V_OBJ = '${%s.OBJ}' % MOD
 V_ATTR = '${%s.Cls.attr}' % MOD
@@ -89,6 +90,8 @@ V_DOLLAR = '$notref'
 V_MARKTXT = '${%s.MARKTXT}' % MOD     # a str object whose text is '$res{a.b}'
 V_LOCK = '${%s.LOCK}' % MOD           # a threading.Lock(): not deep-copyable
 V_MODULE = '${%s}' % SUB              # a module object: not deep-copyable
+# outside the 14-value menu, part 'failed-first-attempt'
+V_LATE = '${%s.OBJ}' % LATE           # importable only once LATE is installed
 
 
 def jkey(value):
@@ -108,9 +111,59 @@ EXTRA_MENU = [V_MARKTXT, V_LOCK, V_MODULE]
 EXTRA_KINDS = ['object_ref_to_marker_text', 'uncopyable_object_ref',
                'module_object_ref']
 KIND_OF = {jkey(v): k for v, k in zip(MENU + EXTRA_MENU, KINDS + EXTRA_KINDS)}
+KIND_OF[jkey(V_LATE)] = 'late_module_ref'
 REF_KINDS = {'object_ref', 'attr_ref', 'package_ref', 'res_ref', 'handle_ref',
              'object_ref_to_marker_text', 'uncopyable_object_ref',
-             'module_object_ref'}
+             'module_object_ref', 'late_module_ref', 'res_path_ref',
+             'handle_path_ref'}
+
+# -- resource paths ---------------------------------------------------------
+# Keys of a ResourceMap are arbitrary strings (file names, typically).  Each
+# key of this menu is put at four positions of the enclosing tree and referred
+# to by $res{...} / $handle{...}; the marker text is BUILT here from the key
+# list ('.'.join), so that the oracle looks a marker up in PATH_TABLE and
+# never parses it.
+PATH_KEYS = [
+    ('identifier', 'b2'), ('dash', 'player-idle'), ('blank', 'level 1'),
+    ('at', 'tile@2x'), ('plus', 'a+b'), ('leading_digit', '2x'),
+    ('nonascii_letter', 'caf\u00e9'), ('comma', 'x,y'), ('hash', '#1'),
+    ('tilde', '~tmp'), ('apostrophe', "it's"), ('parens', '(1)'),
+    ('brackets', '[1]'), ('equals', 'a=b'), ('percent', '50%'),
+    ('bang', '!'), ('star', '*'), ('double_quote', '"q"'),
+    ('colon', 'a:b'), ('slash', 'a/b'), ('backslash', 'a\\b'),
+    ('pipe', 'a|b'), ('dollar', '$x'), ('only_blank', ' '),
+    ('tab', 'x\ty'),
+]
+PATH_POSITIONS = {
+    'top': lambda k: [k],                       # root[k]
+    'leaf': lambda k: ['a', k],                 # next to a/b, a/c
+    'mid': lambda k: ['d', k, 'leaf'],          # the key names a sub-map
+    'mid_and_leaf': lambda k: ['d', k, k],
+}
+SPLIT_CHARS = ('/', ':', '|', '.')      # ResourceMap.split_char; '/' = stock
+PATH_TABLE = {}     # marker text -> (which, key name, position, key list)
+PATH_MARKER = {}    # (which, key name, position) -> marker text
+for _name, _key in PATH_KEYS:
+    for _pos, _make in PATH_POSITIONS.items():
+        for _which in ('res', 'handle'):
+            _text = '$' + _which + '{' + '.'.join(_make(_key)) + '}'
+            PATH_TABLE[_text] = (_which, _name, _pos, _make(_key))
+            PATH_MARKER[_which, _name, _pos] = _text
+del _name, _key, _pos, _make, _which, _text
+
+
+def kind_of(value):
+    """Kind of an argument value: table look-up on the exact JSON value."""
+    kind = KIND_OF.get(jkey(value))
+    if kind is None and isinstance(value, str) and value in PATH_TABLE:
+        kind = PATH_TABLE[value][0] + '_path_ref'
+    return kind
+
+
+def path_legal(keys, split_char):
+    """The key list is addressable: no key holds the delimiter of the tree
+    or the '.' of the marker syntax."""
+    return all(k and split_char not in k and '.' not in k for k in keys)
 
 ENTRIES = ('dict', 'dict_handle', 'file_root', 'file_composite',
            'file_submap')
@@ -119,9 +172,10 @@ ALL_ENTRIES = ENTRIES + (EXTRA_ENTRY, )
 PLACEMENT = {'dict': 'none', 'dict_handle': 'root', 'file_root': 'root',
              'file_composite': 'composite', 'file_submap': 'submap',
              'file_extra': 'root'}
-WORLD_KEY = {'dict_handle': 'w', 'file_root': 'w',
-             'file_composite': 'worlds/w', 'file_submap': 'worlds/w',
-             'file_extra': 'w'}
+# key lists: joined with the delimiter of the case's tree
+WORLD_KEY = {'dict_handle': ['w'], 'file_root': ['w'],
+             'file_composite': ['worlds', 'w'],
+             'file_submap': ['worlds', 'w'], 'file_extra': ['w']}
 # what the further transform function of 'file_extra' adds (spec form, as in
 # the ``entities`` of a case; the id is in no id menu)
 EXTRA_ENTITY = ['hud', [['H', [], {}]]]
@@ -129,7 +183,13 @@ RELOAD = 'reload'
 OTHER_BEFORE = 'customise_other_before'
 OTHER_AFTER = 'customise_other_after'
 ISOLATION_STEPS = (OTHER_BEFORE, OTHER_AFTER)
-STEPS = ISOLATION_STEPS + (RELOAD, )
+# 'fail_<cause>_<who>': a load attempt that fails for a transient cause
+# precedes the load under test
+FAIL_CAUSES = ('resource', 'file', 'module')
+FAIL_WHO = ('same', 'other')
+FAIL_STEPS = tuple(f'fail_{c}_{w}' for c in FAIL_CAUSES for w in FAIL_WHO)
+STEPS = ISOLATION_STEPS + FAIL_STEPS + (RELOAD, )
+OTHER_WORLD_KEY = 'w2'      # where the OTHER handle of 'fail_*_other' lives
 # what the custom dict transformer of the OTHER handle makes of "$notref..."
 REWRITTEN = 'rewritten by the dict transformer of another handle'
 
@@ -174,14 +234,30 @@ class Res:
         return f'<Res {self.label}>'
 
 
+class Unavailable(Exception):
+    """What a resource handle raises while its resource is not there yet."""
+
+
+_NEVER_LOADED = Named('<the resource handle never completed a load>')
+
+
 class ResHandle(desper.Handle):
-    def __init__(self, label):
+    """``switch['available']`` false: load() raises (transient cause).
+    ``produced`` lists what load() returned, oldest first: the table's
+    "loaded resource" is the last one, independently of desper's cache."""
+
+    def __init__(self, label, switch=None):
         self.label = label
         self.loads = 0
+        self.switch = switch if switch is not None else {'available': True}
+        self.produced = []
 
     def load(self):
         self.loads += 1
-        return Res(self.label)
+        if not self.switch['available']:
+            raise Unavailable(f'resource {self.label} is not there yet')
+        self.produced.append(Res(self.label))
+        return self.produced[-1]
 
     def __repr__(self):
         return f'<ResHandle {self.label}>'
@@ -255,13 +331,38 @@ def _make_scratch():
 
 class Harness:
     """Everything global one case touches: in-memory modules in
-    ``sys.modules``, the lru_cache of ``object_from_string``, one JSON file.
-    All of it is put back on exit."""
+    ``sys.modules``, the lru_cache of ``object_from_string``, the class
+    attribute ``ResourceMap.split_char``, one JSON file.
+    All of it is put back on exit.
+
+    split_char      delimiter of composite keys for the whole case
+    paths           further key lists (PATH_TABLE) that get a resource handle
+    late_installed  false: the module LATE is not importable until
+                    install_late()
+    """
+
+    def __init__(self, split_char='/', paths=(), late_installed=True):
+        if split_char not in SPLIT_CHARS:
+            raise HarnessError(f'delimiter {split_char!r} is not in the menu')
+        self.split_char = split_char
+        self.paths = [list(keys) for keys in paths]
+        self.late_installed = late_installed
+
+    def key(self, *keys):
+        """Composite key of the case's tree."""
+        if not path_legal(keys, self.split_char):
+            raise HarnessError(f'{keys!r} cannot be addressed with '
+                               f'delimiter {self.split_char!r}')
+        return self.split_char.join(keys)
 
     def __enter__(self):
         for name in _MODULE_NAMES:
             if name in sys.modules:
                 raise HarnessError(f'{name} is already in sys.modules')
+        if desper.ResourceMap.__dict__.get('split_char') != '/':
+            raise HarnessError('ResourceMap.split_char is not the stock "/" '
+                               'at the start of a case')
+        desper.ResourceMap.split_char = self.split_char
         object_from_string.cache_clear()
         del _CREATED[:]
         self.own_scratch = None
@@ -287,16 +388,32 @@ class Harness:
         sys.modules[MOD] = mod
         sys.modules[PKG] = pkg
         sys.modules[SUB] = sub
+        self.late = types.ModuleType(LATE)
+        self.late_obj = self.late.OBJ = Named('late.OBJ')
+        if self.late_installed:
+            sys.modules[LATE] = self.late
 
         # the enclosing resource tree
+        self.switch = {'available': True}
         self.root = desper.ResourceMap()
-        self.h_ab = ResHandle('a/b')
-        self.h_ac = ResHandle('a/c')
-        self.h_r = ResHandle('r')
-        self.root['a/b'] = self.h_ab
-        self.root['a/c'] = self.h_ac
-        self.root['r'] = self.h_r
+        self.h_ab = ResHandle('a/b', self.switch)
+        self.h_ac = ResHandle('a/c', self.switch)
+        self.h_r = ResHandle('r', self.switch)
+        self.root[self.key('a', 'b')] = self.h_ab
+        self.root[self.key('a', 'c')] = self.h_ac
+        self.root[self.key('r')] = self.h_r
+        self.path_handles = {}
+        for keys in self.paths:
+            if tuple(keys) in self.path_handles:
+                continue
+            hdl = ResHandle('/'.join(keys), self.switch)
+            self.root[self.key(*keys)] = hdl
+            self.path_handles[tuple(keys)] = hdl
         return self
+
+    def install_late(self):
+        sys.modules[LATE] = self.late
+        self.late_installed = True
 
     def __exit__(self, *exc):
         # cases stay independent of each other even on a tree where the
@@ -311,6 +428,7 @@ class Harness:
             except Exception:
                 pass
         del self.customised[:]
+        desper.ResourceMap.split_char = '/'
         for name in _MODULE_NAMES:
             sys.modules.pop(name, None)
         object_from_string.cache_clear()
@@ -325,19 +443,38 @@ class Harness:
         return False
 
     # -- the table ---------------------------------------------------------
-    def expected(self, value):
-        """menu value -> (kind, 'is' | 'eq', expected object)."""
-        kind = KIND_OF.get(jkey(value))
+    def expected(self, value, resolve=False):
+        """menu value -> (kind, 'is' | 'eq', expected object).
+
+        The loaded resource of a handle is what its load() returned last
+        (``produced``), never what desper's cache answers; ``resolve``: the
+        harness itself resolves the marker (dict entries) and loads the
+        handle first if nobody has."""
+        kind = kind_of(value)
         if kind is None:
             raise HarnessError(f'argument value {value!r} is not in the menu')
+
+        def loaded(hdl):
+            if resolve and not hdl.produced:
+                hdl()
+            return hdl.produced[-1] if hdl.produced else _NEVER_LOADED
+
+        if kind in ('res_path_ref', 'handle_path_ref'):
+            keys = tuple(PATH_TABLE[value][3])
+            if keys not in self.path_handles:
+                raise HarnessError(f'path {keys!r} is not in the tree')
+            hdl = self.path_handles[keys]
+            return kind, 'is', loaded(hdl) if kind == 'res_path_ref' else hdl
         if kind == 'object_ref':
             return kind, 'is', self.obj
         if kind == 'attr_ref':
             return kind, 'is', self.attr
         if kind == 'package_ref':
             return kind, 'is', self.sub_obj
+        if kind == 'late_module_ref':
+            return kind, 'is', self.late_obj
         if kind == 'res_ref':
-            return kind, 'is', self.h_ab()
+            return kind, 'is', loaded(self.h_ab)
         if kind == 'handle_ref':
             return kind, 'is', self.h_ab
         if kind == 'object_ref_to_marker_text':
@@ -349,11 +486,16 @@ class Harness:
         return kind, 'eq', value
 
     def replace_a_b(self):
-        """Assign a fresh resource handle at root key 'a/b'; from now on the
-        table expects that one (and what it loads)."""
+        """Assign a fresh resource handle at root key 'a/b' and at every
+        further path of the case; from now on the table expects those (and
+        what they load)."""
         self.h_ab_old = self.h_ab
-        self.h_ab = ResHandle('a/b (second)')
-        self.root['a/b'] = self.h_ab
+        self.h_ab = ResHandle('a/b (second)', self.switch)
+        self.root[self.key('a', 'b')] = self.h_ab
+        for keys in list(self.path_handles):
+            hdl = ResHandle('/'.join(keys) + ' (second)', self.switch)
+            self.root[self.key(*keys)] = hdl
+            self.path_handles[keys] = hdl
 
     def customise_other_handle(self, filename):
         """ANOTHER WorldFromFileHandle on the same file gets a custom dict
@@ -382,13 +524,21 @@ class Harness:
             raise HarnessError('the other handle was not customised')
         self.customised.append(target.dict_transformers)
 
-    def write(self, description):
+    def reserve(self):
+        """Name of the case's JSON file; nothing is written yet."""
         global _SCRATCH
         directory = _SCRATCH
         if directory is None:
             directory = self.own_scratch = _make_scratch()
         self.filename = os.path.join(
             directory, f'w_{os.getpid()}_{next(_COUNTER)}.json')
+        if os.path.exists(self.filename):
+            raise HarnessError(f'{self.filename} exists already')
+        return self.filename
+
+    def write(self, description):
+        if self.filename is None:
+            self.reserve()
         with open(self.filename, 'w') as fout:
             json.dump(description, fout)
         return self.filename
@@ -399,7 +549,7 @@ class Harness:
         def value(v):
             if as_file:
                 return copy.deepcopy(v)
-            _, how, obj = self.expected(v)
+            _, how, obj = self.expected(v, resolve=True)
             return obj if how == 'is' else copy.deepcopy(v)
 
         def item(spec):
@@ -450,14 +600,14 @@ def description_form(procs, ents):
     kinds = set()
     for _, args, kwargs in list(procs) + [c for _, cs in ents for c in cs]:
         for v in list(args) + list(kwargs.values()):
-            kinds.add(KIND_OF[jkey(v)])
+            kinds.add(kind_of(v))
     if kinds & {'uncopyable_object_ref', 'module_object_ref'}:
         return 'uncopyable_object_ref'
-    if kinds & {'res_ref', 'handle_ref'}:
+    if kinds & {'res_ref', 'handle_ref', 'res_path_ref', 'handle_path_ref'}:
         return 'resource_ref'
     if 'object_ref_to_marker_text' in kinds:
         return 'object_ref_to_marker_text'
-    if kinds & {'object_ref', 'attr_ref', 'package_ref'}:
+    if kinds & {'object_ref', 'attr_ref', 'package_ref', 'late_module_ref'}:
         return 'object_ref'
     return 'no_ref'
 
@@ -483,43 +633,89 @@ def is_falsy_id(eid):
     return eid is not None and not eid
 
 
-def has_resource_ref(procs, ents):
-    """The description holds a $res{} / $handle{} marker."""
+def values_of(procs, ents):
+    """Every argument value of a description."""
     for _, args, kwargs in list(procs) + [c for _, cs in ents for c in cs]:
         for v in list(args) + list(kwargs.values()):
-            if KIND_OF.get(jkey(v)) in ('res_ref', 'handle_ref'):
-                return True
-    return False
+            yield v
+
+
+def has_kind(procs, ents, kinds):
+    return any(kind_of(v) in kinds for v in values_of(procs, ents))
+
+
+def has_resource_ref(procs, ents):
+    """The description holds a $res{} / $handle{} marker."""
+    return has_kind(procs, ents, ('res_ref', 'handle_ref', 'res_path_ref',
+                                  'handle_path_ref'))
+
+
+def has_res_marker(procs, ents):
+    """The description holds a $res{} marker (a resource gets loaded)."""
+    return has_kind(procs, ents, ('res_ref', 'res_path_ref'))
+
+
+def has_late_ref(procs, ents):
+    return has_kind(procs, ents, ('late_module_ref', ))
+
+
+def paths_of(procs, ents):
+    """Key lists of the path markers of a description (table look-up)."""
+    out = []
+    for v in values_of(procs, ents):
+        if isinstance(v, str) and v in PATH_TABLE:
+            if PATH_TABLE[v][3] not in out:
+                out.append(PATH_TABLE[v][3])
+    return out
 
 
 def has_dollar_passthrough(procs, ents):
     """The description holds the pass-through string "$notref"."""
     for _, args, kwargs in list(procs) + [c for _, cs in ents for c in cs]:
         for v in list(args) + list(kwargs.values()):
-            if KIND_OF.get(jkey(v)) == 'dollar_not_marker':
+            if kind_of(v) == 'dollar_not_marker':
                 return True
     return False
 
 
 # --------------------------------------------------------------------------
 def split_case(case):
-    """-> (entry, sparse, procs, ents, steps); the 4-tuple form of older
-    replay records has no steps."""
+    """-> (entry, sparse, procs, ents, steps, tree); the 4-tuple form of
+    older replay records has no steps, the 5-tuple form no tree options."""
     case = json.loads(json.dumps(case))
     if len(case) == 4:
         case = case + [[]]
-    if len(case) != 5:
+    if len(case) == 5:
+        case = case + [{}]
+    if len(case) != 6:
         raise HarnessError(f'malformed case {case!r}')
-    entry, sparse, procs, ents, steps = case
+    entry, sparse, procs, ents, steps, tree = case
     if entry not in ALL_ENTRIES:
         raise HarnessError(f'unknown entry {entry!r}')
+    if not isinstance(tree, dict) or set(tree) - {'split_char'} or tree.get(
+            'split_char', '/') not in SPLIT_CHARS:
+        raise HarnessError(f'unknown tree options {tree!r}')
     if not isinstance(steps, list) or any(s not in STEPS for s in steps):
         raise HarnessError(f'unknown steps {steps!r}')
     order = [STEPS.index(s) for s in steps]
     if order != sorted(set(order)) or len(
-            [s for s in steps if s in ISOLATION_STEPS]) > 1:
-        raise HarnessError(f'steps {steps!r}: at most one isolation step, '
-                           'then at most one reload')
+            [s for s in steps if s in ISOLATION_STEPS + FAIL_STEPS]) > 1:
+        raise HarnessError(f'steps {steps!r}: at most one isolation or '
+                           'failed-attempt step, then at most one reload')
+    for step in steps:
+        if step not in FAIL_STEPS:
+            continue
+        cause = step.split('_')[1]
+        if not entry.startswith('file') or (
+                cause == 'resource' and not has_res_marker(procs, ents)) or (
+                cause == 'module' and not has_late_ref(procs, ents)):
+            raise HarnessError(f'step {step!r} needs a file entry and a '
+                               'marker whose resolution can fail')
+    for keys in paths_of(procs, ents):
+        if not entry.startswith('file') or not path_legal(
+                keys, tree.get('split_char', '/')):
+            raise HarnessError(f'path {keys!r} needs a file entry and a '
+                               'delimiter that is in none of its keys')
     if RELOAD in steps and not (entry.startswith('file')
                                 and has_resource_ref(procs, ents)):
         raise HarnessError(f'steps {steps!r} need a file entry and a '
@@ -528,12 +724,14 @@ def split_case(case):
             entry.startswith('file') and has_dollar_passthrough(procs, ents)):
         raise HarnessError(f'steps {steps!r} need a file entry and a '
                            '"$notref" argument')
-    return entry, sparse, procs, ents, steps
+    return entry, sparse, procs, ents, steps, tree
 
 
 def run_world_case(case):
-    entry, sparse, procs, ents, steps = split_case(case)
-    with Harness() as h:
+    entry, sparse, procs, ents, steps, tree = split_case(case)
+    late = not any(s.startswith('fail_module') for s in steps)
+    with Harness(tree.get('split_char', '/'), paths_of(procs, ents),
+                 late) as h:
         return _check_world_case(h, entry, sparse, procs, ents, steps,
                                  jkey(list(case)))
 
@@ -544,9 +742,18 @@ def _check_world_case(h, entry, sparse, procs, ents, steps, key):
     feat = dict(entry=(EXTRA_ENTRY if extra else 'file') if is_file
                 else entry, placement=PLACEMENT[entry])
     isolation = [s for s in steps if s in ISOLATION_STEPS]
-    steps = [s for s in steps if s not in ISOLATION_STEPS]
+    failing = [s for s in steps if s in FAIL_STEPS]
+    steps = [s for s in steps if s not in ISOLATION_STEPS + FAIL_STEPS]
     if isolation:
         feat['phase'] = 'other_handle_customised'
+    cause = who = None
+    if failing:
+        _, cause, who = failing[0].split('_')
+        feat['phase'] = 'after_failed_attempt'
+    custom_delimiter = h.split_char != '/'
+    if custom_delimiter:
+        # (only then: signatures of the stock delimiter stay as they were)
+        feat['delimiter'] = 'custom'
     hits = collections.Counter()
     calls = 0
     # what the world must contain: the description, plus what the further
@@ -573,7 +780,9 @@ def _check_world_case(h, entry, sparse, procs, ents, steps, key):
         calls += 1
     else:
         if is_file:
-            filename = h.write(h.describe(procs, ents, sparse, as_file=True))
+            text = h.describe(procs, ents, sparse, as_file=True)
+            # (cause 'file': the world file is not there yet)
+            filename = h.reserve() if cause == 'file' else h.write(text)
             if OTHER_BEFORE in isolation:
                 h.customise_other_handle(filename)
             handle = desper.WorldFromFileHandle(filename)
@@ -590,9 +799,39 @@ def _check_world_case(h, entry, sparse, procs, ents, steps, key):
             handle.transform_functions.append(
                 lambda hdl, wld: desper.populate_world_from_dict(wld, real))
         if entry == 'file_submap':
-            h.root['worlds'] = desper.ResourceMap()
-        wkey = WORLD_KEY[entry]
+            h.root[h.key('worlds')] = desper.ResourceMap()
+        wkey = h.key(*WORLD_KEY[entry])
         h.root[wkey] = handle
+        if failing:
+            # -- a load attempt fails for a transient cause, the cause is
+            # removed, and only then comes the load under test
+            attempt_key = wkey
+            if who == 'other':
+                attempt_key = h.key(OTHER_WORLD_KEY)
+                h.root[attempt_key] = desper.WorldFromFileHandle(filename)
+            if cause == 'resource':
+                h.switch['available'] = False
+            elif cause == 'module' and LATE in sys.modules:
+                raise HarnessError(f'{LATE} is importable already')
+            try:
+                h.root[attempt_key]
+            except Exception:
+                raised = True
+            else:
+                raised = False
+            calls += 1
+            if cause == 'resource':
+                h.switch['available'] = True
+            elif cause == 'file':
+                h.write(text)
+            else:
+                h.install_late()
+            del _CREATED[:]
+            if not raised:
+                # what a load yields while a referenced resource cannot be
+                # loaded is not in the statement: nothing to go on with
+                return {'calls': calls, 'hits': {}, 'key': key}
+            hits['first_attempt_raised'] += 1
         try:
             world = h.root[wkey]
         except Exception as exc:
@@ -636,7 +875,8 @@ def _check_world_case(h, entry, sparse, procs, ents, steps, key):
         calls += _check_loaded(h, world2, handle, procs, exp_ents, is_file,
                                feat2, hits2)
         hits['reload_after_resource_replaced'] += 1
-        for kind in ('res_ref', 'handle_ref'):
+        for kind in ('res_ref', 'handle_ref', 'res_path_ref',
+                     'handle_path_ref'):
             if hits2[kind]:
                 hits[kind + '_after_replace'] += hits2[kind]
 
@@ -688,6 +928,21 @@ def _check_world_case(h, entry, sparse, procs, ents, steps, key):
             hits['extra_transform_after_file_handler'] += 1
     if not sparse:
         hits['empty_keys_written'] += 1
+    if failing:
+        # (all clauses passed on the load that followed the failed attempt)
+        hits[{'resource': 'load_after_failed_resource_load',
+              'file': 'load_after_missing_world_file',
+              'module': 'load_after_missing_module'}[cause]] += 1
+        hits['load_after_failed_attempt_of_the_same_handle' if who == 'same'
+             else 'load_after_failed_attempt_of_another_handle'] += 1
+    if custom_delimiter:
+        hits['custom_delimiter'] += 1
+        for kind in ('res_ref', 'handle_ref', 'res_path_ref',
+                     'handle_path_ref'):
+            if hits[kind]:
+                hits['custom_delimiter_' + kind] += hits[kind]
+        if len(WORLD_KEY.get(entry, [])) > 1:
+            hits['custom_delimiter_composite_world_key'] += 1
     if isolation:
         # (all clauses passed: the "$notref" arguments arrived unchanged)
         hits['other_handle_customised'] += 1
@@ -889,10 +1144,18 @@ def _check_args(h, spec, inst, where, fail, hits, is_file):
             ok = got is exp
         else:
             ok = same_value(got, exp)
+        form = kind
+        if kind in ('res_path_ref', 'handle_path_ref'):
+            _, key_name, position, keys = PATH_TABLE[value]
+            form = kind + (':identifier_keys' if all(
+                k.isidentifier() for k in keys) else ':nonidentifier_key')
         if not ok:
             fail('arg_value', f'{where} {slot} written as {value!r}: '
                  f'expected {"the object" if how == "is" else "the value"} '
-                 f'{short(exp)}, received {short(got)}', kind)
+                 f'{short(exp)}, received {short(got)}', form)
+        if form != kind:
+            hits['path_key_' + key_name] += 1
+            hits['path_position_' + position] += 1
         if is_file:
             hits[kind] += 1
             if kind in REF_KINDS and slot.startswith('kwargs'):
@@ -985,14 +1248,18 @@ def arg_shapes_full(menu):
     return out
 
 
-def with_steps(entry, sparse, procs, ents):
+def with_steps(entry, sparse, procs, ents, split_char='/', first=()):
     """The case of this description and entry: file entries whose description
     holds a $res{} / $handle{} marker go on with the reload step (that case
-    contains the single-load case: same first load, same checks)."""
-    steps = []
+    contains the single-load case: same first load, same checks).  ``first``:
+    steps in front of it; the tree options are only written for a delimiter
+    other than the stock one."""
+    steps = list(first)
     if entry.startswith('file') and has_resource_ref(procs, ents):
-        steps = [RELOAD]
-    return (entry, sparse, procs, ents, steps)
+        steps.append(RELOAD)
+    if split_char == '/':
+        return (entry, sparse, procs, ents, steps)
+    return (entry, sparse, procs, ents, steps, {'split_char': split_char})
 
 
 def with_isolation(cases):
@@ -1089,13 +1356,119 @@ def entity_lists(comp_lists, max_entities):
     return out
 
 
-def structure_cases(proc_lists, ent_lists, sparses, entries):
+def structure_cases(proc_lists, ent_lists, sparses, entries, split_char='/'):
     cases = []
     for ents in ent_lists:
         for procs in proc_lists:
             for sparse in sparses:
                 for entry in entries:
-                    cases.append(with_steps(entry, sparse, procs, ents))
+                    cases.append(with_steps(entry, sparse, procs, ents,
+                                            split_char))
+    return cases
+
+
+FILE_PLACEMENTS = ('file_root', 'file_composite', 'file_submap')
+FILE_ENTRIES = FILE_PLACEMENTS + (EXTRA_ENTRY, )
+
+
+def one_argument_cases(value, entries, split_char):
+    """The value as the only argument: positional / keyword x component /
+    processor x entries."""
+    cases = []
+    for args, kwargs in (([value], {}), ([], {'k': value})):
+        for entry in entries:
+            cases.append(with_steps(entry, True, [],
+                                    [[None, [['P', args, kwargs]]]],
+                                    split_char))
+            cases.append(with_steps(entry, True, [['A', args, kwargs]], [],
+                                    split_char))
+    return cases
+
+
+def path_cases(pairs):
+    """Every key of PATH_KEYS at every position of PATH_POSITIONS, as
+    $res{...} and as $handle{...}, under every delimiter of SPLIT_CHARS that
+    is in none of the path's keys; ``pairs``: moreover every ordered pair of
+    keys at position 'leaf', $res{} of the first as positional and
+    $handle{} of the second as keyword argument of the same component /
+    processor (and the other way round)."""
+    cases = []
+    for split_char in SPLIT_CHARS:
+        legal = [name for name, key in PATH_KEYS
+                 if path_legal([key], split_char)]
+        for name in legal:
+            for position in PATH_POSITIONS:
+                for which in ('res', 'handle'):
+                    cases += one_argument_cases(
+                        PATH_MARKER[which, name, position], FILE_PLACEMENTS,
+                        split_char)
+        if not pairs:
+            continue
+        for n1 in legal:
+            for n2 in legal:
+                for w1, w2 in (('res', 'handle'), ('handle', 'res')):
+                    args = [PATH_MARKER[w1, n1, 'leaf']]
+                    kwargs = {'k': PATH_MARKER[w2, n2, 'leaf']}
+                    for entry in FILE_PLACEMENTS:
+                        cases.append(with_steps(
+                            entry, True, [],
+                            [[None, [['P', args, kwargs]]]], split_char))
+                        cases.append(with_steps(
+                            entry, True, [['A', args, kwargs]], [],
+                            split_char))
+    return cases
+
+
+CUSTOM_SPLIT_CHARS = tuple(c for c in SPLIT_CHARS if c != '/')
+
+
+def delimiter_cases(proc_lists, ent_lists, sparses):
+    cases = []
+    for split_char in CUSTOM_SPLIT_CHARS:
+        cases += structure_cases(proc_lists, ent_lists, sparses, ALL_ENTRIES,
+                                 split_char)
+    return cases
+
+
+def delimiter_argument_cases(shapes):
+    cases = []
+    for split_char in CUSTOM_SPLIT_CHARS:
+        for args, kwargs in shapes:
+            for entry in ENTRIES:
+                cases.append(with_steps(entry, True, [],
+                                        [[None, [['P', args, kwargs]]]],
+                                        split_char))
+                cases.append(with_steps(entry, True, [['A', args, kwargs]],
+                                        [], split_char))
+    return cases
+
+
+# the fixed argument lists of part 'failed-first-attempt': each holds a
+# marker of every kind whose resolution the fail steps make fail
+PF = ['P', [V_RES, V_LATE], {'k': V_HANDLE}]
+AF = ['A', [V_LATE], {'k': V_RES}]
+
+
+def failed_attempt_cases(proc_lists, ent_lists, sparses, split_chars):
+    """Every description x file entry x every fail step it can take (cause
+    'file': all; 'resource': a $res{} marker; 'module': a ${late.OBJ}
+    marker)."""
+    cases = []
+    for split_char in split_chars:
+        for ents in ent_lists:
+            for procs in proc_lists:
+                causes = ['file']
+                if has_res_marker(procs, ents):
+                    causes.append('resource')
+                if has_late_ref(procs, ents):
+                    causes.append('module')
+                for sparse in sparses:
+                    for entry in FILE_ENTRIES:
+                        for step in FAIL_STEPS:
+                            if step.split('_')[1] in causes:
+                                cases.append(with_steps(
+                                    entry, sparse, procs, ents, split_char,
+                                    first=[step]))
     return cases
 
 
@@ -1132,6 +1505,33 @@ def families(tier):
                  'contains B2 (ProcB2 is a subclass of ProcB)',
                  components='<= 2 distinct of P1, H in both orders',
                  ids=IDS, max_entities=1, A1=A1, P1=P1, entries=ALL_ENTRIES,
+                 extra_entity=EXTRA_ENTITY))
+        fam['resource-paths'] = (
+            run_world_case, path_cases(pairs=False),
+            dict(keys=dict(PATH_KEYS), positions=sorted(PATH_POSITIONS),
+                 markers=['$res{}', '$handle{}'], split_chars=SPLIT_CHARS,
+                 slots=['args[0]', "kwargs['k']"],
+                 carriers=['component', 'processor'],
+                 entries=FILE_PLACEMENTS, pairs=False))
+        fam['delimiter'] = (
+            run_world_case,
+            delimiter_cases(processor_lists([A1]),
+                            entity_lists(component_lists([P1, P2]), 1),
+                            [True, False]),
+            dict(split_chars=CUSTOM_SPLIT_CHARS,
+                 processors='sub-lists of [A1, B] in both orders',
+                 components='<= 2 distinct of P1|P2, H in both orders',
+                 ids=IDS, max_entities=1, A1=A1, P1=P1, P2=P2,
+                 entries=ALL_ENTRIES, extra_entity=EXTRA_ENTITY))
+        fam['failed-first-attempt'] = (
+            run_world_case,
+            failed_attempt_cases(processor_lists([AF]),
+                                 entity_lists(component_lists([PF]), 1),
+                                 [True], ['/']),
+            dict(steps=list(FAIL_STEPS), split_chars=['/'],
+                 processors='sub-lists of [AF, B] in both orders',
+                 components='<= 2 distinct of PF, H in both orders',
+                 ids=IDS, max_entities=1, AF=AF, PF=PF, entries=FILE_ENTRIES,
                  extra_entity=EXTRA_ENTITY))
     else:
         fam['arguments'] = (
@@ -1171,6 +1571,40 @@ def families(tier):
                  components='<= 2 distinct of P1, H in both orders',
                  ids=IDS, entities=3, A1=A1, P1=P1, entries=ALL_ENTRIES,
                  extra_entity=EXTRA_ENTITY))
+        fam['resource-paths'] = (
+            run_world_case, path_cases(pairs=True),
+            dict(keys=dict(PATH_KEYS), positions=sorted(PATH_POSITIONS),
+                 markers=['$res{}', '$handle{}'], split_chars=SPLIT_CHARS,
+                 slots=['args[0]', "kwargs['k']"],
+                 carriers=['component', 'processor'],
+                 entries=FILE_PLACEMENTS, pairs=True))
+        fam['delimiter'] = (
+            run_world_case,
+            delimiter_cases(processor_lists([A1]),
+                            entity_lists(component_lists([P1, P2]), 2),
+                            [True, False]),
+            dict(split_chars=CUSTOM_SPLIT_CHARS,
+                 processors='sub-lists of [A1, B] in both orders',
+                 components='<= 2 distinct of P1|P2, H in both orders',
+                 ids=IDS, max_entities=2, A1=A1, P1=P1, P2=P2,
+                 entries=ALL_ENTRIES, extra_entity=EXTRA_ENTITY))
+        small = [1, V_RES]
+        fam['delimiter-arguments'] = (
+            run_world_case,
+            delimiter_argument_cases(arg_shapes_slotwise(MENU, small)),
+            dict(mode='slot-wise', menu=MENU, others=small,
+                 split_chars=CUSTOM_SPLIT_CHARS,
+                 carriers=['component', 'processor'], entries=ENTRIES))
+        fam['failed-first-attempt'] = (
+            run_world_case,
+            failed_attempt_cases(processor_lists([AF]),
+                                 entity_lists(component_lists([PF]), 2),
+                                 [True], SPLIT_CHARS[:2]),
+            dict(steps=list(FAIL_STEPS), split_chars=SPLIT_CHARS[:2],
+                 processors='sub-lists of [AF, B] in both orders',
+                 components='<= 2 distinct of PF, H in both orders',
+                 ids=IDS, max_entities=2, AF=AF, PF=PF,
+                 entries=FILE_ENTRIES, extra_entity=EXTRA_ENTITY))
     return fam
 
 
@@ -1335,7 +1769,26 @@ def run(tier, rep):
                      subclass_and_base_next_to_unrelated_processor=1,
                      other_handle_customised=1,
                      other_handle_customised_first=1,
-                     other_handle_customised_later=1)
+                     other_handle_customised_later=1,
+                     # resource-paths
+                     res_path_ref=1, handle_path_ref=1,
+                     res_path_ref_after_replace=1,
+                     handle_path_ref_after_replace=1,
+                     # delimiter
+                     custom_delimiter=1, custom_delimiter_res_ref=1,
+                     custom_delimiter_handle_ref=1,
+                     custom_delimiter_res_path_ref=1,
+                     custom_delimiter_handle_path_ref=1,
+                     custom_delimiter_composite_world_key=1,
+                     # failed-first-attempt
+                     first_attempt_raised=1, late_module_ref=1,
+                     load_after_failed_resource_load=1,
+                     load_after_missing_world_file=1,
+                     load_after_missing_module=1,
+                     load_after_failed_attempt_of_the_same_handle=1,
+                     load_after_failed_attempt_of_another_handle=1,
+                     **{'path_key_' + name: 1 for name, _ in PATH_KEYS},
+                     **{'path_position_' + pos: 1 for pos in PATH_POSITIONS})
     saved = {name: sys.modules.get(name) for name in _MODULE_NAMES}
     _SCRATCH = _make_scratch()
     try:
@@ -1350,8 +1803,13 @@ def run(tier, rep):
         rep.extra['c15_id_menu'] = IDS
         rep.extra['c15_case_forms'] = [
             '(entry, sparse, processors, entities)',
-            '(entry, sparse, processors, entities, steps)']
+            '(entry, sparse, processors, entities, steps)',
+            '(entry, sparse, processors, entities, steps, tree options)']
         rep.extra['c15_steps'] = list(STEPS)
+        rep.extra['c15_path_keys'] = dict(PATH_KEYS)
+        rep.extra['c15_path_positions'] = {
+            pos: make('<key>') for pos, make in PATH_POSITIONS.items()}
+        rep.extra['c15_split_chars'] = list(SPLIT_CHARS)
     finally:
         shutil.rmtree(_SCRATCH, ignore_errors=True)
         _SCRATCH = None
@@ -1368,7 +1826,8 @@ def replay(rec):
     if part == 'object-from-string':
         runner = run_ofs_case
     elif part in ('arguments', 'extra-forms', 'structure', 'structure-3',
-                  'processor-subclass'):
+                  'processor-subclass', 'resource-paths', 'delimiter',
+                  'delimiter-arguments', 'failed-first-attempt'):
         runner = run_world_case
     else:
         raise SystemExit(f'unknown part {part}')
